@@ -72,4 +72,13 @@ func Contradictions(c *q.Ctx) {
 	if len(sites) == 0 {
 		c.OK("K1c", "packages of the anchored functions", "no branch tests a call's value where its error is known to be non-nil", "-", fmt.Sprintf("%d package(s) swept", len(pkgs)))
 	}
+	// K16: no closure that outlives its loop iteration captures a variable that the loop re-assigns
+	caps := q.LoopCaptures(c.P, in)
+	for _, l := range caps {
+		c.Sites++
+		c.Fail("K16", load.QualName(q.Top(l.Fn)), "no closure that outlives its iteration captures a variable the loop re-assigns: `"+l.Var.Comment+"`", c.At(l.Closure), fmt.Sprintf("the closure is handed on by %T and reads `%s` later: every closure of the loop sees the last iteration's value", l.Use, l.Var.Comment))
+	}
+	if len(caps) == 0 {
+		c.OK("K16", "packages of the anchored functions", "no closure that outlives its iteration captures a variable the loop re-assigns", "-", fmt.Sprintf("%d package(s) swept", len(pkgs)))
+	}
 }
